@@ -108,8 +108,6 @@ type Scanner struct {
 
 	// allowAnnotation indicates is annotation is allowed or not.
 	allowAnnotation bool
-
-	hasTrailingCharacters bool
 }
 
 type context struct {
@@ -178,11 +176,6 @@ func (s *Scanner) Length() uint {
 			// Found character after the end of the schema and spaces.
 			// Example: char "s" in "{} some text"
 			length = uint(lex.End())
-			if s.hasTrailingCharacters {
-				// The foreign character was met one step earlier, while the
-				// last literal was still being closed.
-				length--
-			}
 			break
 		}
 
@@ -936,11 +929,8 @@ func stateEndTop(s *Scanner, c byte) state {
 
 	case !bytes.IsBlank(c):
 		if s.lengthComputing {
-			if s.stack.Len() > 0 {
-				// Looks like we have invalid schema, and we should keep scanning.
-				s.hasTrailingCharacters = true
-				return scanContinue
-			}
+			// The first byte after the schema. The end of the last literal may
+			// still be waiting in the queue of found lexemes: EndTop follows it.
 			s.found(lexeme.EndTop)
 			return scanContinue
 		} else if s.annotation == annotationNone {
@@ -948,9 +938,6 @@ func stateEndTop(s *Scanner, c byte) state {
 		}
 	}
 
-	if s.hasTrailingCharacters {
-		s.found(lexeme.EndTop)
-	}
 	return scanContinue
 }
 
